@@ -252,6 +252,10 @@ class Prover:
             return a[1] <= b[1]
         if a[0] == "int" and a[1] == 0:
             return True  # unsigned
+        if a[0] == "int" and a[1] == 1:
+            for f in self.facts:
+                if f[0] == "ne" and len(f) == 3 and ((f[1] == b and f[2] == ("int", 0)) or (f[2] == b and f[1] == ("int", 0))):
+                    return True  # b != 0 (unsigned) => 1 <= b
         if b[0] == "int" and b[1] >= 18446744073709551615:
             return True
         for (x, y) in self.extra_le:
